@@ -2,7 +2,7 @@
    Only theorem statements closed by `exact`, each followed by Print Assumptions. *)
 From Coq Require Import Permutation.
 From Names Require Import Order.
-From Object Require Import ObjSeg ObjSegProofs ObjSegModel Store StoreSpec StoreMem StoreBolt StoreThm ProduceStore Defects Fetch FetchStream FetchSafe FetchLive FetchBudget FetchCheck.
+From Object Require Import ObjSeg ObjSegProofs ObjSegModel Store StoreSpec StoreMem StoreBolt StoreThm ProduceStore Defects Fetch FetchStream FetchSafe FetchLive FetchProgress FetchBudget FetchCheck.
 Open Scope nat_scope.
 
 Definition S8000 : nat := N.to_nat pSegmentSize.
@@ -146,6 +146,18 @@ Theorem consume_any_order : forall (W : nat -> list bytes), wf_world W ->
      (run_clean cl_init evs -> consume_log_ok (concat (W sid)) false (s_log st) = true)).
 Proof. exact FetchBudget.consume_any_order. Qed.
 Print Assumptions consume_any_order.
+
+(* bounded progress: from any state c reachable in an honest run, a continuation without new Consume calls changes the
+   state at most `potential W c` times (a natural number computed from the queues, the remaining retries and the segments
+   not yet requested); so the consumer state machine cannot run forever, and once nothing changes any more it is
+   quiescent, where consume_any_order says every consumer has completed *)
+Theorem bounded_progress : forall (W : nat -> list bytes), wf_world W ->
+  forall evs0 evs k, run_ok W cl_init evs0 ->
+  let c := fold_left step evs0 cl_init in
+  run_ok W c evs -> Forall (fun e => forall nm pol, e <> EvConsume nm pol) evs -> changes c evs k ->
+  k + potential W (fold_left step evs c) <= potential W c.
+Proof. exact FetchProgress.bounded_progress_reachable. Qed.
+Print Assumptions bounded_progress.
 
 (* error_once: a consumer that ends with an error has exactly one completion callback, the last one, carrying that
    error (finalizeError is idempotent and handleData ignores finished streams), for every schedule *)
